@@ -466,6 +466,28 @@ func c17FromJaccard(c *Ctx) {
 			k.DistinctBC(2001)
 		})
 	}
+	// extreme arguments: j from the smallest subnormal to 1 - 2^-53, k up to 5000 — only what is stated for them:
+	// non-increasing in j, within [0,1], never NaN (the formula itself is checked on the grid above)
+	c.Case(1000, func(k *K) {
+		js := []float64{0, 5e-324, 1e-320, 1e-310, 2.3e-308, 1e-300, 1e-200, 1e-100, 1e-30, 1e-17, 1e-9, 0.001, 0.25, 0.5, 0.999, 1 - 1e-16, 1}
+		for _, kk := range []int{1, 2, 21, 32, 100, 709, 710, 711, 1000, 5000, 1 << 20} {
+			prev := math.Inf(1)
+			for _, j := range js {
+				d := mash.FromJaccard(j, kk)
+				if math.IsNaN(d) || d < 0 || d > 1 {
+					k.Failf("fromjaccard-range", "FromJaccard(%v,%d) = %v outside [0,1]", j, kk, d)
+					return
+				}
+				if d > prev {
+					k.Failf("fromjaccard-monotone", "FromJaccard(%v,%d) = %v is above its value %v at a smaller j", j, kk, d, prev)
+					return
+				}
+				prev = d
+				k.Count("fromjaccard_points", 1)
+				k.Evals(1)
+			}
+		}
+	})
 	c.Exhaustive("fromjaccard: 2001-point grid of j in [0,1] x k in 1..32")
 }
 
